@@ -40,7 +40,17 @@ func (a Arch) String() string {
 	}
 
 	els = append(els, a.CPU)
-	return strings.Join(els, "-")
+	short := strings.Join(els, "-")
+	if parsed, err := ParseArch(short); err == nil && *parsed == a {
+		return short
+	}
+	/* The short form would read back as a different architecture (for
+	 * example any-linux-any as "any", or musl-linux-amd64 as "musl-amd64");
+	 * use the shortest form that denotes the same triple. */
+	if parsed, err := ParseArch(a.OS + "-" + a.CPU); err == nil && *parsed == a {
+		return a.OS + "-" + a.CPU
+	}
+	return a.ABI + "-" + a.OS + "-" + a.CPU
 }
 
 func (set ArchSet) String() string {
